@@ -368,6 +368,15 @@ def run(ctx):
     codes = core.coq_eval(ctx, "c06", PRE, items, "check_C06", min_per_shard=8)
     bad = [m for m, c in zip(meta, codes) if c == 3]
     dis = [m for m, c in zip(meta, codes) if c == 2]
+    # a listed (not repaired) finding suppresses exactly its input class: a valid project rejected with MissingForeignKey
+    # because the nested reference of an argument is looked up in the locale a null target is inherited from
+    known = [f for f in core.load_known("C06") if f.get("status") == "known" and f.get("id") == "C06-nested-arg-locale"]
+    if known:
+        by_dir = {d: p for p, d in zip(projs, dirs)}
+        hit = [m for m in bad if m["expect"] is None and m["impl"] == "err:MissingForeignKey" and nested_arg_under_null_target(by_dir[m["project"]])]
+        if hit:
+            core.known_finding(ctx, known[0], known[0].get("what", "C06-nested-arg-locale") + " (%d generated projects)" % len(hit))
+            bad = [m for m in bad if m not in hit]
     unm = sum(1 for c in codes if c == 1)
     if bad or panics:
         first = (bad or panics)[0]
@@ -397,6 +406,30 @@ def run(ctx):
     }, assumptions=["ranges and plurals as foreign-key targets (count arguments) are not in this fragment",
                     "arguments containing $t are not combined with null targets in inheriting locales (the property text does not fix the locale such "
                     "arguments are evaluated in)"])
+
+
+def nested_arg_under_null_target(proj):
+    """the input class of finding C06-nested-arg-locale: in some locale L a value holds `$t(target, {.. "x": ".. $t(other) .."})`
+    whose target is an explicit null in L (so the value comes from another locale of the inherits walk) and whose argument
+    string itself contains a reference"""
+    src = proj["src"]
+
+    def has_ref(items):
+        return any(it[0] == "R" or (it[0] == "C" and has_ref(it[2])) for it in items)
+
+    def walk(items, l):
+        for it in items:
+            if it[0] == "C" and walk(it[2], l):
+                return True
+            if it[0] == "R":
+                _, ns, path, args = it
+                nested = any(a[0] == "S" and has_ref(a[1]) for _, a in args)
+                if nested and src.get((ns, l, tuple(path)), "x") is None:
+                    return True
+                if any(a[0] == "S" and walk(a[1], l) for _, a in args):
+                    return True
+        return False
+    return any(v not in (None, "absent") and walk(v, l) for (ns, l, p), v in src.items())
 
 
 def replay(ctx, path):
